@@ -1074,7 +1074,7 @@ func tokensMain(args []string) {
 	}
 	n := 800
 	if thorough() {
-		n = 12000
+		n = 6000
 	}
 	if len(args) > 0 {
 		n, _ = strconv.Atoi(args[0])
